@@ -1,5 +1,7 @@
 package main
 
+import "golang.org/x/tools/go/packages"
+
 func init() {
 	register("C15", &propInfo{
 		Explanation: "Writer/reader agreement decided on the typed AST of package fileformats: DX.CASES/TYPE/SIZE/PARSE the PLY type tables of Validate, Size, Parse, DecodeBinary and the ten PLYValue encoders agree for all 16 type names (same value type from text and binary, same byte width on both sides, parse function and bit size matching the value type); DF every FormatFloat in a writer uses the shortest exact representation for the value's own width; DX.STL the binary STL writer and reader move the same number of header and record bytes.",
@@ -9,6 +11,8 @@ func init() {
 		Fixtures:    []string{"dec"},
 		Run:         runC15,
 		SelfTest: []Mutation{
+			{Name: "list count always written little-endian", File: "fileformats/ply_value.go",
+				Old: "\tbuf.Write(p.Length.EncodeBinary(encoding))\n", New: "\tbuf.Write(p.Length.EncodeBinary(binary.LittleEndian))\n", Rule: "ENDIAN", Expect: "PLYValueList"},
 			{Name: "ASCII STL coordinates parsed as doubles then narrowed", File: "fileformats/stl.go",
 				Old: "strconv.ParseFloat(token, 32)", New: "strconv.ParseFloat(token, 64)", Rule: "DR.WIDTH", Expect: "parseSTLVector"},
 			{Name: "float64 text written with float32 precision", File: "fileformats/ply_value.go",
@@ -51,4 +55,7 @@ func runC15(c *Ctx) {
 	s.ruleDR("DR")
 	c.floor("DR.SHORT", 0)
 	c.floor("DR.LINE", 0)
+	// big- and little-endian streams: everything goes through the order that is passed in
+	c.runEndian("ENDIAN", []*packages.Package{c.pkg("fileformats"), c.fixturePkg("dec")})
+	c.floor("ENDIAN", 10)
 }
